@@ -205,6 +205,48 @@ func buildPartDisk(c *partioCase, extra uint64) (*memdev.Dev, *disk.Disk, int64,
 		}
 		return d, dk, size, nil
 	}
+	if c.Via == "repartition" || c.Via == "replace-entry" {
+		// partition 1 first lies somewhere else (and is looked up once); then the disk is partitioned again with partition 1 where
+		// the case wants it - with a NEW table object ("repartition") or with the same table object whose entry was replaced by
+		// a new partition object ("replace-entry", same number of entries)
+		dk := &disk.Disk{Backend: be(d, false), Size: size, LogicalBlocksize: lss, PhysicalBlocksize: int64(c.PSS), DefaultBlocks: true}
+		os, oz := c.Start+c.Sectors+3, c.Sectors+2
+		if c.Table == "gpt" {
+			t := tbl.(*gpt.Table)
+			under := t.Partitions[len(t.Partitions)-1]
+			first := &gpt.Table{LogicalSectorSize: c.LSS, PhysicalSectorSize: c.PSS, ProtectiveMBR: true, GUID: fixedDiskGUID,
+				Partitions: []*gpt.Partition{{Index: 1, Start: os, End: os + oz - 1, Type: gpt.LinuxFilesystem, Name: "elsewhere", GUID: partGUID(9)}}}
+			if err := dk.Partition(first); err != nil {
+				return nil, nil, 0, fmt.Errorf("table refused: %w", err)
+			}
+			_, _ = dk.GetPartition(1)
+			_ = first.GetPartitions()
+			if c.Via == "replace-entry" {
+				first.Partitions[0] = under
+				t = first
+			}
+			if err := dk.Partition(t); err != nil {
+				return nil, nil, 0, fmt.Errorf("table refused: %w", err)
+			}
+		} else {
+			t := tbl.(*mbr.Table)
+			under := t.Partitions[0]
+			first := &mbr.Table{LogicalSectorSize: c.LSS, PhysicalSectorSize: c.PSS, Partitions: []*mbr.Partition{{Index: 1, Type: mbr.Linux, Start: uint32(os), Size: uint32(oz)}}}
+			if err := dk.Partition(first); err != nil {
+				return nil, nil, 0, fmt.Errorf("table refused: %w", err)
+			}
+			_, _ = dk.GetPartition(1)
+			_ = first.GetPartitions()
+			if c.Via == "replace-entry" {
+				first.Partitions[0] = under
+				t = first
+			}
+			if err := dk.Partition(t); err != nil {
+				return nil, nil, 0, fmt.Errorf("table refused: %w", err)
+			}
+		}
+		return d, dk, size, nil
+	}
 	if c.Via != "" && c.Via != "gaps" {
 		dk := &disk.Disk{Backend: be(d, false), Size: size, LogicalBlocksize: lss, PhysicalBlocksize: int64(c.PSS), DefaultBlocks: true}
 		if err := dk.Partition(tbl); err != nil {
@@ -224,7 +266,7 @@ func buildPartDisk(c *partioCase, extra uint64) (*memdev.Dev, *disk.Disk, int64,
 
 func runPartioCase(c *partioCase) (sig, msg, outcome string) {
 	extra := uint64(0)
-	if c.Op == "copy" || c.Via == "unordered" || c.Via == "inplace" {
+	if c.Op == "copy" || c.Via == "unordered" || c.Via == "inplace" || c.Via == "repartition" || c.Via == "replace-entry" {
 		extra = c.Sectors + 12
 	}
 	target := 1
@@ -455,8 +497,8 @@ func enumC13(quick bool) []partioCase {
 					}
 					if !huge {
 						// the Disk keeps the caller's own table object (Disk.Partition), also with the slice out of index order
-						for _, via := range []string{"inmem", "unordered", "gaps", "inplace"} {
-							if via != "inmem" && via != "inplace" && tb == "mbr" {
+						for _, via := range []string{"inmem", "unordered", "gaps", "inplace", "repartition", "replace-entry"} {
+							if (via == "unordered" || via == "gaps") && tb == "mbr" {
 								continue // MBR slots are positional
 							}
 							for _, lm := range []string{"size", "size+1"} {
